@@ -151,3 +151,10 @@ def family_core(prop, fail, unit_res, repo, verif, build):
 
 for _p in ("C01", "C02", "C03", "C09", "C15", "C06"):
     FAMILIES[_p] = family_core
+
+
+def family_c13(prop, fail, unit_res, repo, verif, build):
+    return _core_replay("c13_family", lambda scratch: [scratch], repo, verif, build)
+
+
+FAMILIES["C13"] = family_c13
